@@ -216,6 +216,22 @@ def optionalKnown (k : Kind) (s : Seg) (_ : Path) : Bool :=
      | some c => c.known.any (fun _ v => v.prim.undefined)
      | none => false)
 
+end C19
+
+namespace Spec
+
+/-- non-negative path: every index segment is `≥ 0`. -/
+def nonNegSeg : Seg → Bool
+  | .field _ => true
+  | .index i => decide (0 ≤ i)
+
+def nonNegPath (p : Path) : Bool := p.all nonNegSeg
+
+end Spec
+
+namespace C19
+open Spec
+
 /-- a negative index meets an array whose length is not exactly known: `get_recursive` unions the
     candidate known kinds with `merge_keep`. -/
 def negUnknown (k : Kind) (s : Seg) (_ : Path) : Bool :=
